@@ -166,6 +166,18 @@ func c17Gen(g *hx.Gen) {
 			g.Casef("bl %s %d", b.name, i)
 		}
 	}
+	// explicit definitions: upper-case and mixed-case letters for case-insensitive alphabets,
+	// both cases of one letter, a non-letter, the empty definition
+	for _, def := range []string{"ACGT", "AcGt", "acgt", "aCgT-", "ACGTacgt", "aA", "Zz9", "-", "", "ABCDEFGHIJKLMNOPQRSTUVWXYZ", "@[`{", "AZaz"} {
+		for _, cased := range []string{"0", "1"} {
+			g.Casef("na %s %d %d %s", cased, '-', 'n', hx.Hex([]byte(def)))
+		}
+	}
+	for _, pr := range [][2]string{{"acgt", "tgca"}, {"ACGT", "TGCA"}, {"acgtACGT", "tgcaTGCA"}, {"\x7f\x01", "\x01\x7f"}, {"a", "a"}, {"ab", "bc"}, {"abc", "bca"}, {"a", "b"}, {"\x7f", "\x7f"}} {
+		s0, _ := strconv.Unquote(`"` + pr[0] + `"`)
+		c0, _ := strconv.Unquote(`"` + pr[1] + `"`)
+		g.Casef("np %s %s", hx.Hex([]byte(s0)), hx.Hex([]byte(c0)))
+	}
 	n := g.Scale(1500, 100000)
 	const pool = "acgtnxACGTNX-*mrwsykvhdbMRWSYKVHDBuU"
 	for k := 0; k < n && !g.Done(); k++ {
